@@ -298,17 +298,28 @@ def run_case(cfg):
                 dec = ft + 64 * eps * max(1.0, Fs, F0)
                 cands.append(math.sqrt(dec / (step * (1 - L * step / 2))) / mu)
             bound = max(cands) * (1 + 1e-6) + 64 * eps * scale * math.sqrt(N)
+            if not (err <= bound):
+                viol.append(V("solution-differs-from-known-minimiser", {"distance": err, "bound": bound,
+                                                                        "gradient_norm": r}))
         else:
-            bound = 1e-3 * scale if cfg["dtype"] != "float32" else 3e-2 * scale
-        if not (err <= bound):
-            viol.append(V("solution-differs-from-known-minimiser", {"distance": err, "bound": bound,
-                                                                    "gradient_norm": r}))
+            # momentum / adam: the documented OR-type stopping rule fires when ONE step is shorter than x_tol, which
+            # also happens at a turning point of the momentum far from the minimiser (adam, step 0.05, quad family
+            # from the zero guess: stops silently at distance 0.14).  No distance to the minimiser follows from the
+            # statement, so none is demanded (a constant bound used here earlier was a false alarm of this check);
+            # instead every transition of the real iteration is validated against the documented update equations
+            # and stopping rule (below).
+            bound = None
+        viol.extend(_gd_adam_conformance(method, opts, log, y, y0, prob, eps, scale, generous, obs))
     if cfg["functional"] == "minimize":
         # F(y) <= F(y0) up to what the requested tolerance can resolve: a point within `bound` of the minimiser
         # has F <= F* + L/2 bound^2 <= F(y0) + L/2 bound^2
         Fy = float(prob.F(y, *prob.tensors).item())
         F0 = float(prob.F(y0, *prob.tensors).item())
-        slack = 0.5 * prob.lip() * bound ** 2 + 64 * eps * max(1.0, abs(F0))
+        if bound is None:
+            # momentum / adam: judged from the guesses that start O(1) away from the minimiser only
+            slack = 64 * eps * max(1.0, abs(F0)) if cfg["guess"] in ("zero", "far") else INF
+        else:
+            slack = 0.5 * prob.lip() * bound ** 2 + 64 * eps * max(1.0, abs(F0))
         if not (Fy <= F0 + slack):
             viol.append(V("objective-larger-than-at-y0", {"F(y)": Fy, "F(y0)": F0, "slack": slack,
                                                           "gradient_norm": r}))
@@ -316,6 +327,74 @@ def run_case(cfg):
     obs["status"] = "silent"
     obs["err"] = rnd(err, 2)
     return {"viol": viol, "obs": obs, "status": "silent" if not viol else "violation"}
+
+
+def _gd_adam_conformance(method, opts, log, y, y0, prob, eps, scale, generous, obs):
+    """silent return of gd / adam: the logged evaluation points x_0 .. x_k and the returned x_{k+1} are the
+    iterates of the real run.  Reference model = the documented update equations (docstrings of gd and adam) driven
+    by the library's own iterates: every transition x_i -> x_{i+1} must be the documented update, the run must not
+    continue past an iterate where a stopping criterion (OR of the four documented tests, from the second
+    iteration on) clearly holds, and must not stop where none can hold."""
+    out = []
+    P = prob.tensors
+    xs = [p for p in log] + [y]
+    k = len(log) - 1
+    if k < 0 or any(p.shape != y.shape for p in log) or not torch.equal(log[0], y0):
+        out.append(V("gd-adam:evaluation-log-shape", {"evaluations": len(log)}))
+        return out
+    step = opts["step"]
+    x_tol, x_rtol, f_tol, f_rtol = opts["x_tol"], opts["x_rtol"], opts["f_tol"], opts["f_rtol"]
+    dt = y.dtype
+    v = torch.zeros_like(y)
+    m = torch.zeros_like(y)
+    b1t = b2t = None
+    if method == "adam":
+        b1, b2, ae = opts["beta1"], opts["beta2"], opts["eps"]
+        b1t, b2t = b1, b2
+    fprev = 0.0
+    tolx = 256 * eps * scale
+    d = 1e-6
+    worst = 0.0
+    for i in range(k + 1):
+        x = xs[i]
+        g = prob.gradF(x, *P).detach().to(dt)
+        f = float(prob.F(x, *P).item())
+        if method == "gd":
+            v = opts["gamma"] * v - step * g
+            xref = x + v
+        else:
+            m = b1 * m + (1 - b1) * g
+            v = b2 * v + (1 - b2) * g ** 2
+            mh = m / (1 - b1t)
+            vh = v / (1 - b2t)
+            b1t *= b1
+            b2t *= b2
+            xref = x - step * mh / (vh ** 0.5 + ae)
+        e = flat_norm(xs[i + 1] - xref)
+        worst = max(worst, e / tolx)
+        if not (e <= tolx):
+            out.append(V("gd-adam:transition-differs-from-documented-update",
+                         {"iteration": i, "distance": e, "tol": tolx, "method": method}, iteration=i))
+            break
+        dx = flat_norm(xs[i + 1] - x)
+        xn = flat_norm(x)
+        df = abs(fprev - f)
+        ulp = 8 * eps * max(1.0, abs(f))
+        clearly = (dx < x_tol * (1 - d)) or (dx < x_rtol * xn * (1 - d)) or (df < f_tol * (1 - d) - ulp) or \
+            (df < f_rtol * abs(f) * (1 - d) - ulp)
+        possibly = (dx < x_tol * (1 + d) + 8 * eps * scale) or (dx < x_rtol * xn * (1 + d)) or \
+            (df < f_tol * (1 + d) + ulp) or (df < f_rtol * abs(f) * (1 + d) + ulp)
+        if i > 0 and i < k and clearly:
+            out.append(V("gd-adam:continued-after-a-stopping-criterion-held",
+                         {"iteration": i, "dx": dx, "df": df, "x_tol": x_tol, "f_tol": f_tol}, iteration=i))
+            break
+        if i == k and not (i > 0 and possibly):
+            out.append(V("gd-adam:stopped-silently-without-a-stopping-criterion",
+                         {"iteration": i, "dx": dx, "df": df, "x_tol": x_tol, "f_tol": f_tol,
+                          "evaluations": k + 1}, iteration=i))
+        fprev = f
+    obs["conf"] = rnd(worst, 2)
+    return out
 
 
 def coverage_extra(tier, seed, results):
